@@ -295,7 +295,11 @@ func dischargeVC(x *Exec, o *Obligation, opts verifyOpts) (Result, bool) {
 			} else {
 				qr = prove(q, opts.timeout)
 			}
-			vcCache.Store(key, qr)
+			if qr.Status == "unsat" || qr.Status == "sat" {
+				// a time-out is not a fact about the query: never remembered, so that a retry with a
+				// longer limit really asks again
+				vcCache.Store(key, qr)
+			}
 		}
 		if qr.Status == "unsat" {
 			return qr, disagree
@@ -322,7 +326,9 @@ func dischargeVC(x *Exec, o *Obligation, opts verifyOpts) (Result, bool) {
 			} else {
 				r = prove(q, opts.timeout)
 			}
-			vcCache.Store(key, r)
+			if r.Status == "unsat" || r.Status == "sat" {
+				vcCache.Store(key, r)
+			}
 		}
 		if r.Status == "unsat" {
 			return r, disagree
